@@ -114,3 +114,47 @@ def drive(ctx, cfg, observers=(), dom=None, algo=None, T=None, last_point=True, 
     for ob in observers:
         ob.finish()
     return algo, dom, rs, lp
+
+
+class ExpansionRecorder(Observer):
+    """wraps make_children of every partition held by the algorithm (per instance, no source
+    edit) and logs each call: (round, cell, was_leaf, newlayer, partition depth before)"""
+
+    def start(self, ctx, cfg, algo, dom):
+        self.ctx, self.algo = ctx, algo
+        self.calls = []
+        self.round = 0
+        self.phase = "init"
+        self._wrapped = set()
+        self.wrap_new()
+
+    def wrap_new(self):
+        for part in partitions_of(self.algo):
+            if id(part) in self._wrapped:
+                continue
+            self._wrapped.add(id(part))
+            orig = part.make_children
+            rec = self
+
+            def mk(parent, newlayer=False, _orig=orig, _part=part):
+                rec.calls.append({"round": rec.round, "phase": rec.phase, "cell": parent, "was_leaf": parent.get_children() is None,
+                                  "newlayer": newlayer, "depth_before": _part.get_depth(), "part": _part})
+                return _orig(parent, newlayer) if True else None
+
+            part.make_children = mk
+            # keep a reference so that id() stays unique for the lifetime of the run
+            setattr(part, "_verif_keepalive", mk)
+
+    def before_pull(self, t):
+        self.round, self.phase = t, "pull"
+
+    def after_pull(self, t, p):
+        self.round, self.phase = t, "reward"
+        self.wrap_new()
+
+    def after_reward(self, t, r):
+        self.wrap_new()
+        self.round, self.phase = t + 1, "pull"
+
+    def calls_in(self, t, phase=None):
+        return [c for c in self.calls if c["round"] == t and (phase is None or c["phase"] == phase)]
